@@ -278,7 +278,10 @@ def fallback_search(ck, thorough):
     small = [scn("fallback: two first publishers", [], P("c"), P("c")),
              scn("fallback: publisher vs exact subscriber on a new channel", [], P("c"), S("c")),
              scn("fallback: publisher vs star subscriber", [], P("c", "c"), S("*")),
-             scn("fallback: two publishers one subscriber", [], P("a", "a"), P("a"), S("a"))]
+             scn("fallback: two publishers one subscriber", [], P("a", "a"), P("a"), S("a")),
+             scn("fallback: two publishers on two existing channels", ["a", "b"], P("a", "a"), P("b", "b")),
+             scn("fallback: two publishers on two channels, one new", ["a"], P("a", "b"), P("b", "a")),
+             scn("fallback: publishers on two channels and an exact subscriber", ["a", "b"], P("a"), P("b"), S("b"))]
     jobs = [{"scenario": sc, "bound": 2 if thorough else 1, "points": "lines", "budget_s": 120 if thorough else 40, "stall_s": 2.0} for sc in small]
     with ThreadPoolExecutor(max_workers=len(jobs)) as ex:
         outs = list(ex.map(lambda j: run_job(j, j["budget_s"] + 60), jobs))
